@@ -90,9 +90,24 @@ func fieldsRead(v ssa.Value, out map[string]bool, seen map[ssa.Value]bool) {
 // errorIfFields lists, for a validation function, the struct fields mentioned
 // in conditions of if-statements whose body returns a non-nil error.
 func errorIfFields(p *core.Prog, f *core.Func) map[string]bool {
-	info := f.Pkg.TypesInfo
 	out := map[string]bool{}
+	errorIfFieldsInto(p, f, out, 0)
+	return out
+}
+
+func errorIfFieldsInto(p *core.Prog, f *core.Func, out map[string]bool, depth int) {
+	info := f.Pkg.TypesInfo
 	ast.Inspect(f.Decl.Body, func(n ast.Node) bool {
+		// checks that live in an error-returning module helper (R38 verifies how its error is passed on)
+		if call, ok := n.(*ast.CallExpr); ok && depth < 3 {
+			if callee := core.Callee(info, call); callee != nil {
+				if h := p.ByObj[callee.Origin()]; h != nil && h != f && h.Decl.Body != nil && core.IsModPath(h.Pkg.PkgPath) {
+					if rs := h.Obj.Type().(*types.Signature).Results(); rs.Len() == 1 && types.Identical(rs.At(0).Type(), types.Universe.Lookup("error").Type()) {
+						errorIfFieldsInto(p, h, out, depth+1)
+					}
+				}
+			}
+		}
 		is, ok := n.(*ast.IfStmt)
 		if !ok || !returnsError(p, info, is.Body) {
 			return true
@@ -107,7 +122,6 @@ func errorIfFields(p *core.Prog, f *core.Func) map[string]bool {
 		})
 		return true
 	})
-	return out
 }
 
 // returnsError: the block ends in `return <non-nil error>`.
@@ -559,7 +573,7 @@ func r38QuadTreeConditions(c *core.Ctx) {
 		}
 		return ""
 	}
-	atomsOf := func(e ast.Expr) map[string]bool {
+	atomsOfIn := func(info *types.Info, role func(types.Object) string, e ast.Expr) map[string]bool {
 		out := map[string]bool{}
 		ast.Inspect(e, func(n ast.Node) bool {
 			switch x := n.(type) {
@@ -577,20 +591,6 @@ func r38QuadTreeConditions(c *core.Ctx) {
 		})
 		return out
 	}
-	// the id parsed from cur.ID
-	var parsedID types.Object
-	ast.Inspect(loop.Body, func(n ast.Node) bool {
-		as, ok := n.(*ast.AssignStmt)
-		if !ok || len(as.Rhs) != 1 {
-			return true
-		}
-		if call, ok := as.Rhs[0].(*ast.CallExpr); ok && core.IsCallTo(info, call, "strconv.Atoi", "strconv.ParseInt") && len(call.Args) >= 1 {
-			if atomsOf(call.Args[0])["cur.ID"] {
-				parsedID = core.ObjOf(info, as.Lhs[0])
-			}
-		}
-		return true
-	})
 	conds := []qtCond{
 		{"square-matrix", []string{"cur.MatrixHeight", "cur.MatrixWidth"}, false, token.NEQ},
 		{"square-tiles", []string{"cur.TileHeight", "cur.TileWidth"}, false, token.NEQ},
@@ -603,33 +603,88 @@ func r38QuadTreeConditions(c *core.Ctx) {
 		{"matrix-doubles", []string{"cur.MatrixHeight|cur.MatrixWidth", "prev.MatrixHeight|prev.MatrixWidth"}, true, token.NEQ},
 		{"cell-size-halves", []string{"cur.CellSize", "prev.CellSize"}, true, token.ILLEGAL},
 	}
-	// candidate ifs: all if statements in the loop body with an error-returning body
+	// candidate ifs: all if statements with an error-returning body in the loop body, and in the bodies of the
+	// module helpers the loop calls as `if err := helper(…); err != nil { return err }` (the helper's parameters
+	// take the roles of the arguments).  A candidate carries every condition it sits under: enclosing ifs, and
+	// earlier ifs of its statement list that leave without an error (a skip).
 	type cand struct {
 		is     *ast.IfStmt
 		atoms  map[string]bool
-		guards []guard
+		guards []qtGuard
+		info   *types.Info
+		role   func(types.Object) string
 	}
 	var cands []cand
-	ast.Inspect(loop.Body, func(n ast.Node) bool {
-		is, ok := n.(*ast.IfStmt)
-		if !ok {
+	var collect func(body *ast.BlockStmt, info *types.Info, role func(types.Object) string, outer []qtGuard, depth int)
+	collect = func(body *ast.BlockStmt, info *types.Info, role func(types.Object) string, outer []qtGuard, depth int) {
+		// the id parsed from cur.ID
+		var parsedID types.Object
+		ast.Inspect(body, func(n ast.Node) bool {
+			as, ok := n.(*ast.AssignStmt)
+			if !ok || len(as.Rhs) != 1 {
+				return true
+			}
+			if call, ok := as.Rhs[0].(*ast.CallExpr); ok && core.IsCallTo(info, call, "strconv.Atoi", "strconv.ParseInt") && len(call.Args) >= 1 {
+				if atomsOfIn(info, role, call.Args[0])["cur.ID"] {
+					parsedID = core.ObjOf(info, as.Lhs[0])
+				}
+			}
 			return true
-		}
-		if returnsError(c.P, info, is.Body) {
-			a := atomsOf(is.Cond)
+		})
+		ast.Inspect(body, func(n ast.Node) bool {
+			is, ok := n.(*ast.IfStmt)
+			if !ok || !returnsError(c.P, info, is.Body) {
+				return true
+			}
+			gs := append([]qtGuard{}, outer...)
+			for _, g := range guardsBefore(c.P, info, body, is) {
+				switch {
+				case g.IsTrue:
+					gs = append(gs, qtGuard{g, info, role, false})
+				case g.Stmt != nil && g.Stmt.Else == nil && !returnsError(c.P, info, g.Stmt.Body):
+					// an earlier `if … { return nil }`: later checks are skipped when it holds
+					gs = append(gs, qtGuard{g, info, role, true})
+				}
+			}
+			// a helper call whose error is passed on
+			var hcall *ast.CallExpr
+			if as, ok := is.Init.(*ast.AssignStmt); ok && len(as.Rhs) == 1 {
+				hcall, _ = ast.Unparen(as.Rhs[0]).(*ast.CallExpr)
+			} else if be, ok := ast.Unparen(is.Cond).(*ast.BinaryExpr); ok && be.Op == token.NEQ && canon(be.Y) == "nil" {
+				if o := core.ObjOf(info, be.X); o != nil {
+					if def := lastDefBefore(info, body, o, is.Pos()); def != nil {
+						hcall, _ = ast.Unparen(def).(*ast.CallExpr)
+					}
+				}
+			}
+			if hcall != nil && depth < 3 {
+				if callee := core.Callee(info, hcall); callee != nil {
+					if h := c.P.ByObj[callee.Origin()]; h != nil && h.Decl.Body != nil && core.IsModPath(h.Pkg.PkgPath) {
+						hs := h.Obj.Type().(*types.Signature)
+						hroles := map[types.Object]string{}
+						for i := 0; i < hs.Params().Len() && i < len(hcall.Args); i++ {
+							arg := ast.Unparen(hcall.Args[i])
+							if u, ok := arg.(*ast.UnaryExpr); ok && u.Op == token.AND {
+								arg = ast.Unparen(u.X)
+							}
+							if r := role(core.ObjOf(info, arg)); r != "" && assignedCount(h.Pkg.TypesInfo, h.Decl.Body, hs.Params().At(i)) == 0 {
+								hroles[hs.Params().At(i)] = r
+							}
+						}
+						collect(h.Decl.Body, h.Pkg.TypesInfo, func(o types.Object) string { return hroles[o] }, gs, depth+1)
+						return true
+					}
+				}
+			}
+			a := atomsOfIn(info, role, is.Cond)
 			if parsedID != nil && core.UsesObj(info, is.Cond, parsedID) {
 				a["parsed"] = true
 			}
-			var gs []guard
-			for _, g := range guardsBefore(c.P, info, loop.Body, is) {
-				if g.IsTrue {
-					gs = append(gs, g)
-				}
-			}
-			cands = append(cands, cand{is, a, gs})
-		}
-		return true
-	})
+			cands = append(cands, cand{is, a, gs, info, role})
+			return true
+		})
+	}
+	collect(loop.Body, info, role, nil, 0)
 	hasAtom := func(a map[string]bool, spec string) bool {
 		for _, alt := range strings.Split(spec, "|") {
 			if a[alt] {
@@ -661,14 +716,20 @@ func r38QuadTreeConditions(c *core.Ctx) {
 		// nesting: per-matrix conditions under no guard; pairwise only under `prev != nil`
 		nestOK := true
 		why := ""
+		hasPrevGuard := false
 		for _, g := range found.guards {
-			if qc.pairwise && canonRole(info, g.Cond, role) == "prev!=nil" {
+			if qc.pairwise && !g.skip && canonRole(g.info, g.Cond, g.role) == "prev!=nil" {
+				hasPrevGuard = true
 				continue
 			}
 			nestOK = false
-			why = "nested under extra condition `" + core.ExprStr(g.Cond) + "`"
+			if g.skip {
+				why = "skipped when `" + core.ExprStr(g.Cond) + "` holds (an earlier if leaves without an error)"
+			} else {
+				why = "nested under extra condition `" + core.ExprStr(g.Cond) + "`"
+			}
 		}
-		if qc.pairwise && len(found.guards) == 0 {
+		if qc.pairwise && !hasPrevGuard {
 			// fine only if the very first iteration cannot reach it; require the prev != nil guard
 			nestOK = false
 			why = "pairwise check not guarded by `previous != nil`"
@@ -700,7 +761,7 @@ func r38QuadTreeConditions(c *core.Ctx) {
 				why += " is not a non-emptiness test"
 			}
 		case "cell-size-halves":
-			lo, hi, ok := intervalAround(info, found.is.Cond)
+			lo, hi, ok := intervalAround(found.info, found.is.Cond)
 			if !ok || !(lo < 2 && 2 < hi && lo > 1.5 && hi < 2.5) {
 				opOK = false
 				why += fmt.Sprintf(" ratio is not tested against a tolerance interval around 2 (found %v..%v)", lo, hi)
@@ -712,6 +773,30 @@ func r38QuadTreeConditions(c *core.Ctx) {
 			"quadtree condition "+qc.name+" is not enforced as stated: "+why)
 	}
 	c.FloorPrefix(R, "condition-enforced/", 10)
+}
+
+// qtGuard is a condition a candidate check sits under, with the scope it was found in.
+type qtGuard struct {
+	guard
+	info *types.Info
+	role func(types.Object) string
+	skip bool // an earlier if of the same statement list that leaves without an error when Cond holds
+}
+
+// lastDefBefore returns the right-hand side of the last single-value assignment to obj before pos in body.
+func lastDefBefore(info *types.Info, body ast.Node, obj types.Object, pos token.Pos) ast.Expr {
+	var def ast.Expr
+	ast.Inspect(body, func(n ast.Node) bool {
+		if as, ok := n.(*ast.AssignStmt); ok && as.Pos() < pos && len(as.Rhs) == 1 {
+			for _, l := range as.Lhs {
+				if core.ObjOf(info, l) == obj {
+					def = as.Rhs[0]
+				}
+			}
+		}
+		return true
+	})
+	return def
 }
 
 func canonRole(info *types.Info, e ast.Expr, role func(types.Object) string) string {
